@@ -21,6 +21,8 @@
    length and pairwise distinctness over repeated calls);
    decrypt(d): iv = d[1..16], payload = rest;
        payload empty              -> empty result               (MUST; pypdf: "for empty encrypted data")
+                                     (the code makes no AES call then; a CBC call on the empty string
+                                      is tolerated as long as the result is empty)
        payload block-aligned      -> p = CBC-Dec(key, iv, payload); ValidPad(p) -> Unpad(p)   (MUST)
    DON'T-CAREs (the property statement is silent, any outcome is accepted):
      * aligned payload whose plaintext does not end in valid PKCS#7 padding (the code raises
@@ -116,7 +118,9 @@ WrapSubArgsOK(f, k, v, d) ==
       [] wr.fn = "wrap_dec" /\ PayloadAligned(wr.data) ->
              f = "cbc_dec" /\ k = wr.key /\ v = IvOf(wr.data) /\ d = PayloadOf(wr.data)
       [] wr.fn = "wrap_dec" /\ ~ PayloadAligned(wr.data) /\ ~ PayloadEmpty(wr.data) -> TRUE     \* DON'T-CARE
-      [] OTHER -> FALSE                                           \* empty payload: no AES call at all
+      \* empty payload: the code makes no AES call at all; a CBC call on the empty string is harmless
+      [] wr.fn = "wrap_dec" /\ PayloadEmpty(wr.data) -> f = "cbc_dec" /\ k = wr.key /\ d = << >>
+      [] OTHER -> FALSE
 
 WrapSub(f, k, v, d) ==
     /\ wr.ph = "called"
@@ -136,7 +140,8 @@ WrapOutcomeOK(kind, val) ==
     \/ /\ wr.fn = "wrap_enc" /\ wr.ph = "sub"
        /\ \/ kind = "ret"   /\ res = "ok" /\ val = iv \o outp
           \/ kind = "raise" /\ res = "ValueError" /\ val = "ValueError"
-    \/ /\ wr.fn = "wrap_dec" /\ PayloadEmpty(wr.data) /\ wr.ph = "called"
+    \/ /\ wr.fn = "wrap_dec" /\ PayloadEmpty(wr.data)
+       /\ wr.ph = "called" \/ (wr.ph = "sub" /\ res = "ok")
        /\ kind = "ret" /\ val = << >>
     \/ /\ wr.fn = "wrap_dec" /\ PayloadAligned(wr.data) /\ wr.ph = "sub"
        /\ \/ kind = "ret"   /\ res = "ok" /\ ValidPad(outp) /\ val = Unpad(outp)
